@@ -179,6 +179,16 @@ fn run(ctx: &RunCtx) -> Report {
     let target = *item1.target().as_bytes();
     let op1 = sim.put_mutable(writer, item1.clone(), None);
     let t0 = sim.now();
+    // sometimes a find_node for the same target runs in between (its result replaces the cached
+    // closest nodes of the put's lookup with token-less ones)
+    let find_between = rng.chance(1, 5);
+    if find_between {
+        let at = t0 + rng.range(0, delta / MS + 1) * MS;
+        sim.at(at, move |sim| {
+            sim.find_node(writer, target);
+        });
+        report.probe("find_node_between_the_puts", 1);
+    }
     sim.run_until(t0 + delta);
     // phase of the first call at this instant (for reach statistics)
     let stores_sent = sim.with_trace(|tr| tr.iter().any(|d| d.from_host == Some(writer) && d.t_send >= t0 && Krpc::parse(&d.bytes).map(|k| k.query_name() == Some("put") && k.target() == Some(target)).unwrap_or(false)));
@@ -207,6 +217,46 @@ fn run(ctx: &RunCtx) -> Report {
     report.probe(&format!("phase_{phase}"), 1);
     let r1 = res_of(&sim, op1);
     let r2 = res_of(&sim, op2);
+    // Families 5/6: the verdict depends on who was actually asked to store (a storer whose `get`
+    // reply came later than the adaptive request timeout is legitimately left out), so it is
+    // computed per store round from the recorded datagrams: 3xx iff count >= recipients / 2 + 1.
+    let (storers_result, storers_result2) = if family == 5 || family == 6 {
+        let rejecting = if family == 5 { n / 2 + 1 } else { n / 2 };
+        let mut rounds: Vec<(u64, Vec<usize>)> = vec![];
+        sim.with_trace(|tr| {
+            for d in tr.iter().filter(|d| d.from_host == Some(writer) && d.t_send >= t0) {
+                if Krpc::parse(&d.bytes).map(|k| k.query_name() == Some("put") && k.target() == Some(target)).unwrap_or(false) {
+                    if let Some(i) = addrs.iter().position(|a| *a == d.dst) {
+                        match rounds.last_mut() {
+                            Some((t, v)) if *t == d.t_send => v.push(i),
+                            _ => rounds.push((d.t_send, vec![i])),
+                        }
+                    }
+                }
+            }
+        });
+        let verdict = |r: &Vec<usize>| {
+            let rej = r.iter().filter(|i| **i < rejecting).count();
+            if rej >= r.len() / 2 + 1 {
+                if code56 == 301 {
+                    Res::Cas
+                } else {
+                    Res::NotMostRecent
+                }
+            } else {
+                Res::Ok
+            }
+        };
+        if rounds.iter().any(|r| r.1.len() != n) {
+            report.probe("storer_left_out_of_a_store_round", 1);
+        }
+        match (rounds.first(), rounds.last()) {
+            (Some(a), Some(b)) => (verdict(&a.1), verdict(&b.1)),
+            _ => (storers_result.clone(), storers_result.clone()),
+        }
+    } else {
+        (storers_result.clone(), storers_result)
+    };
 
     let what = format!(
         "first: seq {s1}; second: relation={} seq {s2} cas={cas2:?} at +{}ms ({phase}, in_flight={in_flight}); storers family {family} -> {storers_result:?}; results first={r1:?} second={r2:?}",
@@ -229,7 +279,7 @@ fn run(ctx: &RunCtx) -> Report {
             (0, _) => vec![storers_result.clone()],
             (1, _) => vec![Res::NotMostRecent],
             (_, 0) => vec![Res::ConflictRisk],
-            (_, 1) => vec![storers_result.clone()],
+            (_, 1) => vec![storers_result2.clone(), storers_result.clone()],
             _ => vec![Res::Cas],
         };
         if !expect.contains(&r2) {
@@ -241,7 +291,7 @@ fn run(ctx: &RunCtx) -> Report {
                 _ => "cas-mismatch-not-cas-failed",
             };
             report.violate("rule-table", key, format!("expected {expect:?} for the second call; {what}"));
-        } else if (relation == 0 || cas_kind == 1) && relation != 1 && r1 != storers_result {
+        } else if (relation == 0 || cas_kind == 1) && relation != 1 && r1 != storers_result && !(relation != 0 && r1 == storers_result2) {
             report.violate("rule-table", "first-call-result-wrong-after-accepted-second", format!("expected {storers_result:?} for the first call; {what}"));
         }
         report.nontrivial = true;
@@ -249,8 +299,8 @@ fn run(ctx: &RunCtx) -> Report {
         // not in flight: no local error; the result is the storers'
         if r2 == Res::ConflictRisk {
             report.violate("rule-table", "conflict-risk-without-inflight-put", format!("ConflictRisk although the first call had completed; {what}"));
-        } else if r2 != storers_result {
-            report.violate("rule-table", "second-call-result-not-storers-verdict", format!("expected {storers_result:?}; {what}"));
+        } else if r2 != storers_result2 {
+            report.violate("rule-table", "second-call-result-not-storers-verdict", format!("expected {storers_result2:?}; {what}"));
         }
         if r1 != storers_result {
             report.violate("rule-table", "first-call-result-not-storers-verdict", format!("expected {storers_result:?} for the first call; {what}"));
